@@ -76,6 +76,20 @@ def features():
     # clock initialised with a floating point value
     yield ("clock-init-fp", "template-local-clock-array", dict(decl="clock x; clock xs[2] = {1.5, 2.5}; hybrid clock h;"), "", {"symbolic"})
     yield ("clock-init-fp", "global-clock-array", dict(), "clock gxs[2] = {1.5, 2.5};", {"symbolic"})
+    # every way of spelling a clock array (dimensions written out, behind typedef names, mixed, records of clocks), globally and locally,
+    # the floating-point value at the first and at the last position
+    shapes = [("matrix", "clock {n}[2][2] = {{{{{a}, 0.0}}, {{0.0, {b}}}}};"),
+              ("typedef-inner-dimension", "typedef clock pair_t[2]; pair_t {n}[2] = {{{{{a}, 0.0}}, {{0.0, {b}}}}};"),
+              ("typedef-both-dimensions", "typedef clock pair_t[2]; typedef pair_t quad_t[2]; quad_t {n} = {{{{{a}, 0.0}}, {{0.0, {b}}}}};"),
+              ("typedef-of-typedef", "typedef clock pair_t[2]; typedef pair_t pair2_t; pair2_t {n} = {{{a}, {b}}};"),
+              ("typedef-clock-element", "typedef clock ck_t; ck_t {n}[2] = {{{a}, {b}}};"),
+              ("three-dimensions-typedef-inner", "typedef clock pair_t[2]; pair_t {n}[1][2] = {{{{{{{a}, 0.0}}, {{0.0, {b}}}}}}};"),
+              ("record-of-clocks", "struct {{ clock ca; clock cb; }} {n} = {{{a}, {b}}};"),
+              ("array-of-records-of-clocks", "typedef struct {{ clock ca; }} rc_t; rc_t {n}[2] = {{{{{a}}}, {{{b}}}}};")]
+    for sid, text in shapes:
+        for pos, (a, b) in (("first", ("1.5", "0.0")), ("last", ("0.0", "2.5"))):
+            yield ("clock-init-fp", "global:%s:%s" % (sid, pos), dict(), text.format(n="gcs", a=a, b=b), {"symbolic"})
+            yield ("clock-init-fp", "template-local:%s:%s" % (sid, pos), dict(decl="clock x; hybrid clock h; " + text.format(n="lcs", a=a, b=b)), "", {"symbolic"})
     yield ("clock-init-fp", "template-local", dict(decl="clock x = 1.5; hybrid clock h;"), "", {"symbolic"})
     yield ("clock-init-fp", "global", dict(), "clock gx = 1.5;", {"symbolic"})
     yield ("clock-init-fp", "template-local-double-var", dict(decl="clock x = d; hybrid clock h;"), "", {"symbolic"})
@@ -133,6 +147,7 @@ def features():
 def controls():
     """feature-free or explicitly permitted variants: nothing may be restricted *because of them* (reported, not demanded)"""
     yield ("control:int-guard", dict(guard="i == 0 && i < 5"))
+    yield ("control:record-with-double-and-clock-fp-only-in-the-double", dict(decl="clock x; hybrid clock h; struct { double dv; clock cv; } rdc = {1.5, 0};"))
     yield ("control:clock-int-guard", dict(guard="x < 5 && i == 0"))
     yield ("control:rate-0-1", dict(inv="x' == 0 && i >= 0"))
     yield ("control:hybrid-rate", dict(inv="h' == 2 && x <= 5"))
